@@ -330,3 +330,58 @@ Theorem api_versions_header cid corr key ver w :
   encode_api_versions_request cid corr key ver = Ok w ->
   p_header w = Some ((key, ver, corr, Some cid), []).
 Proof. unfold encode_api_versions_request. intros H. rewrite <- (app_nil_r w). now apply header_parse. Qed.
+
+(* ------------------------------------------------------------------ consumer protocol structures carried as BYTES *)
+Theorem subscription_parses version subs ud w :
+  encode_join_group_protocol_metadata version subs ud = Ok w ->
+  forallb present subs = true ->
+  parse_subscription w = Some (version, map ubytes subs, ud).
+Proof.
+  unfold encode_join_group_protocol_metadata. intros H T. cbn [pack_list] in H. inv_do H. norm_app.
+  unfold parse_subscription, pbind. rd.
+  match goal with Ec : pack Fi (llen subs) = Ok ?c0, Ee : enc_all write_short_text subs = Ok ?w0 |- _ =>
+    erewrite (ARRAY_enc_all write_short_text STRING ubytes subs c0 w0); [| |exact Ec|exact Ee] end.
+  - match goal with Eu : write_int_string ud = Ok ?u |- _ => rewrite <- (app_nil_r u) end. rd. reflexivity.
+  - intros a wa r Ia Ea. rewrite forallb_forall in T. split.
+    + apply STRING_text'; auto.
+    + eapply write_short_text_nonempty; eauto.
+Qed.
+
+Lemma pack_ints_parse ps : forall w rest,
+  pack_list (map (fun x => (Fi, x)) ps) = Ok w ->
+  sp_repeat INT32 (length ps) (w ++ rest) = Some (ps, rest) /\ (length ps <= length w)%nat.
+Proof.
+  induction ps as [|x r IH]; intros w rest H; cbn [map pack_list length sp_repeat] in *.
+  - injection H as <-. split; [reflexivity|lia].
+  - destruct (pack Fi x) as [a|] eqn:Ea; cbn [bind] in H; [|discriminate].
+    destruct (pack_list (map (fun x0 => (Fi, x0)) r)) as [b|] eqn:Eb; cbn [bind] in H; [|discriminate].
+    injection H as <-. destruct (IH b rest eq_refl) as [I1 I2]. split.
+    + unfold pbind. rewrite <- app_assoc, (INT32_pack _ _ _ Ea), I1. reflexivity.
+    + assert (a <> []) by (eapply pack_nonempty; eauto). rewrite app_length. destruct a; [congruence|cbn [length]; lia].
+Qed.
+
+Theorem assignment_parses version asg ud w :
+  encode_sync_group_member_assignment version asg ud = Ok w ->
+  forallb (fun tp => present (fst tp)) asg = true ->
+  parse_assignment w = Some (version, map (fun tp : text * list Z => (abytes (fst tp), snd tp)) asg, ud).
+Proof.
+  unfold encode_sync_group_member_assignment. intros H T. inv_do H. norm_app.
+  unfold parse_assignment, topics_of, pbind. rd.
+  match goal with Ec : pack Fi (llen asg) = Ok ?c0, Ee : enc_all ?enc asg = Ok ?w0 |- _ =>
+    erewrite (ARRAY_enc_all enc _ (fun tp : text * list Z => (abytes (fst tp), snd tp)) asg c0 w0); [| |exact Ec|exact Ee] end.
+  - match goal with Eu : write_int_string ud = Ok ?u |- _ => rewrite <- (app_nil_r u) end. rd. reflexivity.
+  - intros tp wa r Ia Ea. rewrite forallb_forall in T. pose proof (T tp Ia) as Pt.
+    cbv beta in Ea.
+    destruct (write_short_ascii (fst tp)) as [n|] eqn:En; cbn [bind] in Ea; [|discriminate].
+    cbn [pack_list] in Ea.
+    destruct (pack Fi (len (snd tp))) as [c|] eqn:Ec; cbn [bind] in Ea; [|discriminate].
+    destruct (pack_list (map (fun x => (Fi, x)) (snd tp))) as [b|] eqn:Eb; cbn [bind] in Ea; [|discriminate].
+    injection Ea as <-. destruct (pack_ints_parse (snd tp) b r Eb) as [I1 I2]. split.
+    + rewrite <- !app_assoc. rewrite (STRING_ascii' _ _ _ En Pt). unfold ARRAY.
+      rewrite (INT32_pack _ _ _ Ec). unfold len. pose proof (Zle_0_nat (length (snd tp))).
+      destruct (Z.of_nat (length (snd tp)) <? 0) eqn:C1; [apply Z.ltb_lt in C1; lia|].
+      destruct (Z.of_nat (length (b ++ r)) <? Z.of_nat (length (snd tp))) eqn:C2.
+      { apply Z.ltb_lt in C2. rewrite app_length in C2. lia. }
+      cbn [orb]. rewrite Nat2Z.id, I1. reflexivity.
+    + apply app_nonempty_l. eapply write_short_ascii_nonempty; eauto.
+Qed.
